@@ -410,3 +410,11 @@ def main_wrap(fn):
     except Inconclusive as e:
         print("INCONCLUSIVE:", str(e)[:6000], file=sys.stderr)
         sys.exit(2)
+    except SystemExit:
+        raise
+    except BaseException:
+        # a defect of the machinery itself is never a verdict about the code under test
+        import traceback
+        traceback.print_exc()
+        print("INCONCLUSIVE: the check itself failed (see the traceback above)", file=sys.stderr)
+        sys.exit(2)
